@@ -328,6 +328,39 @@ def run_verify(spec, rec, lib):
                                       "library rejects (%s); with stdout a closed pipe (PYTHONUNBUFFERED=%s) %s exited 0" % (why, unbuf, name),
                                       {"kind": "verify", "entry": name, "label": label + "+closed-stdout",
                                        "trusted": tb.decode("utf-8", "replace"), "untrusted": ub.decode("utf-8", "replace")})
+        if tb is not None and n % 2 == 0:
+            # ONE file given in both positions - under the same name, another spelling of its path, a symbolic link, a hard link,
+            # a byte-identical copy: the status still says what the library says about that pair of documents
+            base = os.path.basename(tp)
+            aliases = [("same-path", tp), ("dot-segment", os.path.join(d, ".", base)), ("double-slash", d + "//" + base)]
+            try:
+                sl = os.path.join(d, "link-%d.json" % n)
+                if not os.path.lexists(sl):
+                    os.symlink(tp, sl)
+                aliases.append(("symlink", sl))
+                hl = os.path.join(d, "hard-%d.json" % n)
+                if not os.path.lexists(hl):
+                    os.link(tp, hl)
+                aliases.append(("hardlink", hl))
+            except OSError:
+                rec.count("links_unavailable")
+            cp = os.path.join(d, "copy-%d.json" % n)
+            write(cp, raw=tb)
+            aliases.append(("copy", cp))
+            how, alias = aliases[(n // 2) % len(aliases)]
+            acc2, why2 = inprocess_verdict(lib, tp, alias)
+            name, cmd = eps[(n // 2) % len(eps)]
+            for order in ((tp, alias), (alias, tp)):
+                rc, so, se = run_proc(cmd + ["verify-metadata", order[0], order[1]], lib.repo)
+                rec.case("%s|same-file|%s|%s" % (name, how, label))
+                rec.count("same_file_in_both_positions_runs")
+                if rc is None:
+                    rec.inconclusive_because("CLI process timed out")
+                elif (rc == 0) != bool(acc2):
+                    rec.violation("exit-status/%s/%s-same-file-in-both-positions" % (name, "zero-on-reject" if rc == 0 else "nonzero-on-accept"),
+                                  "library %s (%s) the pair (file, %s of the same file); %s exited %d" % ("accepts" if acc2 else "rejects", why2, how, name, rc),
+                                  {"kind": "verify", "entry": name, "label": label + "+same-file:" + how, "same_file": how,
+                                   "trusted": tb.decode("utf-8", "replace"), "untrusted": tb.decode("utf-8", "replace")})
         if tb is not None and ub is not None and n % 3 == 0:
             # the same pair with a terminal as standard output (colours, isatty() branches): same statuses
             name, cmd = eps[n % len(eps)]
@@ -598,6 +631,10 @@ def replay(case, rec, lib):
                 write(tp, raw=case["trusted"].encode("utf-8", "replace"))
             if case["untrusted"] is not None:
                 write(up, raw=case["untrusted"].encode("utf-8", "replace"))
+            if case.get("same_file"):
+                up = tp if case["same_file"] != "symlink" else os.path.join(d, "link.json")
+                if up != tp:
+                    os.symlink(tp, up)
             acc, why = inprocess_verdict(lib, tp, up)
             for name, cmd in entry_points(lib.repo, d):
                 rc, so, se = run_proc(cmd + ["verify-metadata", tp, up], lib.repo)
